@@ -40,7 +40,8 @@ TOL = 1e-12
 LAWS = [("Spring", True), ("Spring", False), ("KelvinVoigt", True), ("KelvinVoigt", False), ("Maxwell", None)]
 TPI_PAIRS = ["O-PM", "O-RB", "RB-RB", "PM-PM", "Fm-RB", "O-ROD"]
 REV_PAIRS = ["O-RB", "RB-RB"]
-DISTS = [0.05, 1.0, 7.5]
+REV_PAIRS_ROD = ["RB-ROD", "ROD-RB"]  # rod cross-section (several elements) as joint partner (seeded C09-h)
+DISTS = [0.05, 1.0, 7.5, 5e-5, 2e-6]  # incl. micro-scale separations (seeded C09-i)
 ANGLE0 = [0.0, 0.3, -2.0, 7.0]
 REGS = ["sub_before_law", "sub_after_law", "sub_only_wrapped"]
 VELS = ["rest", "common_translation"]
@@ -60,8 +61,10 @@ def cases(tier, seed):
                         continue
                     for d in DISTS:
                         out.append({"law": law, "compliance": form, "sub": "tpi", "pair": pair, "dist": d, "reg": reg, "vel": vel, "seed": seed})
-                for pair in REV_PAIRS:
+                for pair in REV_PAIRS + REV_PAIRS_ROD:
                     if vel == "common_translation" and not _both_movable(pair):
+                        continue
+                    if pair in REV_PAIRS_ROD and (vel != "rest" or reg != "sub_before_law"):
                         continue
                     for a0 in ANGLE0:
                         for axis in (0, 1, 2):
@@ -147,7 +150,9 @@ def _build(case, explicit):
         s2 = mk(k2, 2)
         A_IJ0 = J.generic_rotation(seed, 9)
         r_OJ0 = ab.generic_vec(seed, 10, 3, 0.5)
-        sub = J.make_joint("Revolute", axis, s1, s2, r_OJ0=r_OJ0, A_IJ0=A_IJ0, angle0=case["angle0"])
+        xi1 = 0.5 if k1 == "ROD" else None  # nodal parameters: assembly normalises nodal quaternions, which changes interior orientations
+        xi2 = 1.0 if k2 == "ROD" else None
+        sub = J.make_joint("Revolute", axis, s1, s2, xi1=xi1, xi2=xi2, r_OJ0=r_OJ0, A_IJ0=A_IJ0, angle0=case["angle0"])
         l_expected = case["angle0"]
 
     # initial velocities: common translation of everything (only generated for pairs of two movable bodies)
@@ -238,6 +243,17 @@ def check(case):
         explicit_ok = False
         explicit_err = _exc_info(e)
     evals += 1
+    if not explicit_ok and case["reg"] == "sub_before_law":
+        # the documented registration order on a supported pairing with a legitimate geometry: must assemble (also with l_ref=None)
+        try:
+            _build(case, explicit=False)
+            default_ok = True
+        except Exception:  # noqa
+            default_ok = False
+        if not default_ok:
+            return {"fails": [{"site": "documented registration does not assemble (neither with explicit nor with default l_ref)",
+                               "msg": f"{explicit_err['exc']}: {explicit_err['exc_msg']} (in {explicit_err['where']})", "data": explicit_err}],
+                    "nontrivial": True, "evals": evals + 1, "outcome": "documented-registration-crash:" + explicit_err["exc"]}
     if not explicit_ok:
         return {"fails": [], "nontrivial": False, "evals": evals, "outcome": "registration-unsupported:" + explicit_err["exc"],
                 "excluded": "registration variant does not assemble even with an explicit l_ref",
@@ -318,7 +334,11 @@ def check(case):
         else:
             s2 = sub.subsystem2
             A_IJ0 = J.generic_rotation(case["seed"], 9)
-            R = A_IJ0 @ J.rot(np.eye(3)[case["axis"]], 0.37) @ A_IJ0.T
+            turn = 0.37
+            if s2.__class__.__name__ != "RigidBody":
+                # second partner is a rod cross-section: turn the first partner (a rigid body) the other way instead
+                s2, turn = sub.subsystem1, -0.37
+            R = A_IJ0 @ J.rot(np.eye(3)[case["axis"]], turn) @ A_IJ0.T
             # rotate body 2 about the joint axis through r_OJ0
             r_OJ0 = ab.generic_vec(case["seed"], 10, 3, 0.5)
             qb = q0[s2.my_qDOF]
